@@ -269,3 +269,53 @@ Lemma window_example :
   flags [1; 0; 1; 1; 0; 1]%Z /\ length [1; 0; 1; 1; 0; 1]%Z = ((1 + 1) * 3)%nat /\ win_last 3 [1; 0; 1; 1; 0; 1]%Z = [1; 0; 1]%Z /\
   win_slice 3 1 [1; 0; 1; 1; 0; 1]%Z = [1; 0; 1]%Z /\ Forall2 Z.le [0; 0; 1]%Z [1; 0; 1]%Z.
 Proof. repeat split; repeat constructor; lia. Qed.
+
+(* warmup(Nb, tune_freq): in iteration idx (0-based) tune(T, idx / T) is called when (idx + 1) mod T = 0, and at that moment the
+   history holds the initial 1 and the flags of the idx completed iterations: exactly (idx / T + 1) * T entries -- the hypothesis of
+   windows_coincide is a fact about that loop *)
+Lemma warmup_call_pattern (T idx : nat) : (1 <= T)%nat -> ((idx + 1) mod T = 0)%nat -> (1 + idx = (idx / T + 1) * T)%nat.
+Proof.
+  intros HT Hm.
+  assert (T <> 0)%nat as NT by lia.
+  pose proof (Nat.div_mod (idx + 1) T NT) as D. rewrite Hm in D.
+  assert (E : ((idx + 1) / T = idx / T + 1)%nat).
+  { destruct (Nat.eq_dec T 1) as [->|N1].
+    - rewrite !Nat.div_1_r. reflexivity.
+    - pose proof (Nat.div_mod idx T NT) as D2. pose proof (Nat.mod_upper_bound idx T NT) as B.
+      assert (Hq : (idx mod T = T - 1)%nat).
+      { assert (M : ((idx + 1) mod T = (idx mod T + 1) mod T)%nat) by (rewrite Nat.add_mod_idemp_l by exact NT; reflexivity).
+        rewrite Hm in M. destruct (Nat.eq_dec (idx mod T + 1) T) as [Eq|Ne]; [lia|].
+        rewrite Nat.mod_small in M by lia. lia. }
+      apply (Nat.mul_cancel_l _ _ T NT). nia. }
+  rewrite <- E. nia.
+Qed.
+
+Lemma warmup_windows_coincide (T idx : nat) (acc : list Z) :
+  (1 <= T)%nat -> ((idx + 1) mod T = 0)%nat -> length acc = (1 + idx)%nat ->
+  win_last T acc = win_slice T (idx / T) acc /\ length (win_last T acc) = T.
+Proof. intros HT Hm HL. apply windows_coincide. rewrite HL. apply warmup_call_pattern; assumption. Qed.
+
+(* closed form of a run: the parameter after the j-th adaptation is the starting value times the exponential of the accumulated
+   Robbins-Monro drift  sum_{i <= j} (hat_i - star) / sqrt(k + i) *)
+Fixpoint drifts (k : Z) (star : R) (windows : list (Z * Z)) (acc : R) : list R :=
+  match windows with
+  | [] => []
+  | (a, n) :: r => let d := acc + zeta k * (hat_acc a n - star) in d :: drifts (k + 1) star r d
+  end.
+
+Lemma tune_temps_closed_gen windows : forall lam k star acc, 0 < lam ->
+  tune_temps (lam * exp acc) k star windows = map (fun d => lam * exp d) (drifts k star windows acc).
+Proof.
+  induction windows as [|[a n] r IH]; intros lam k star acc Hl; [reflexivity|].
+  cbn [tune_temps drifts map].
+  assert (P : 0 < lam * exp acc) by (apply Rmult_lt_0_compat; [exact Hl | apply exp_pos]).
+  assert (E : tune_temp (lam * exp acc) k (hat_acc a n) star = lam * exp (acc + zeta k * (hat_acc a n - star))).
+  { rewrite tune_temp_mult by exact P. rewrite exp_plus. ring. }
+  rewrite E. f_equal. apply IH. exact Hl.
+Qed.
+
+Lemma tune_temps_closed windows lam k star : 0 < lam ->
+  tune_temps lam k star windows = map (fun d => lam * exp d) (drifts k star windows 0).
+Proof.
+  intro Hl. rewrite <- (tune_temps_closed_gen windows lam k star 0 Hl). rewrite exp_0, Rmult_1_r. reflexivity.
+Qed.
